@@ -1615,7 +1615,8 @@ func genLoc(r *common.Rand) *LocCase {
 	case 6:
 		l.Loc = l.Scheme + "://" + l.Host + path + query // the issue-177 shape when Port is 443
 	default: // forms the model does not judge (net/url territory)
-		l.Loc = common.Pick(r, []string{"uploads/7", "//other.example/v2/x", "https://user@reg.io/v2/x", "/v2/a%20b/uploads/1", "/v2/x?a=b%26c", "https://[::1]:443/v2/x", ""})
+		l.Loc = common.Pick(r, []string{"/v2/app/blobs/uploads/./7", "/v2/app/blobs/../uploads/7?a=1", "/v2/app/./blobs/uploads/../7", "/v2/x?a=1&b",
+			l.Scheme + "://" + l.Host + "/v2/./x/../y", "uploads/7", "//other.example/v2/x", "https://user@reg.io/v2/x", "/v2/a%20b/uploads/1", "/v2/x?a=b%26c", "https://[::1]:443/v2/x", ""})
 	}
 	return l
 }
